@@ -75,6 +75,11 @@ def compare(fl, st, specified, with_tr):
         return ["C12.record_count"]
     if fl.func_count != st["fc"]:
         bad.append("C12.func_count_exact")
+    try:
+        if int(fl.X_max_idx) != int(fl.Xn):     # the prefix that the optimiser's consumers read is the whole log
+            bad.append("C12.x_max_idx_exact")
+    except Exception:
+        bad.append("C12.x_max_idx_exact")
     if fl.cache_count != st["cc"]:
         bad.append("C12.cache_count_exact")
     lens = {fl.X.shape[0], fl.X_orig.shape[0], fl.Y.shape[0], fl.Y_orig.shape[0], fl.n_evals.shape[0],
